@@ -46,9 +46,34 @@ SPECS = [
 ]
 
 
+SPECS += [
+    # ------------------------------------------------------------------ Poisson, Knuth's product method (lambda < 12)
+    dict(name="KnuthMethod::sample", fn="<poisson::KnuthMethod<F> as " + D, kind="ts", self_ty="KnuthMethod", draws=[("StandardUniform", "u0"), ("StandardUniform", "u1")],
+         symbols={"exp_lambda": "positive", "p": "positive", "result": "positive", "u0": "positive", "u1": "positive"},
+         nodes={"entry": [], "loop": ["p", "result"]},
+         rules={"entry": [(None, "goto loop {p: u0, result: 1}")],
+                "loop": [("exp_lambda < p", "goto loop {p: p*u1, result: result + 1}"), (None, "return result - 1")]}),
+    # ------------------------------------------------------------------ Binomial, BINV (inverse transform with restart)
+    dict(name="binv", fn="binomial::binv", kind="ts", generic=False, bits=(64,), self_ty=None, draws=[("StandardUniform", "u0")],
+         symbols={"binv_r": "positive", "binv_s": "positive", "binv_a": "positive", "binv_n": "positive", "r": "positive", "u": "positive", "x": "positive", "u0": "positive"},
+         nodes={"entry": [], "outer": [], "inner": ["r", "u", "x"]},
+         rules={"entry": [(None, "goto outer")],
+                "outer": [(None, "goto inner {r: binv_r, u: u0, x: 0}")],
+                "inner": [("r < u", "goto step"), (None, "goto done")],
+                "step": [("110 < x + 1", "goto outer"), (None, "goto inner {u: u - r, x: x + 1, r: r*(binv_a/(x + 1) - binv_s)}")],
+                "done": [("flag flipped", "return binv_n - x"), (None, "return x")]}),
+    # ------------------------------------------------------------------ StandardGeometric (count leading zeros over 64-bit words)
+    dict(name="StandardGeometric::sample", fn="<geometric::StandardGeometric as rand::distr::Distribution<u64>>::sample", kind="ts", generic=False, bits=(64,), self_ty=None,
+         draws=[("StandardUniform", "w")], symbols={"result": "positive", "w": "positive"},
+         nodes={"entry": [], "loop": ["result"]},
+         rules={"entry": [(None, "goto loop {result: 0}")],
+                "loop": [("leading_zeros(w) < 64", "return result + leading_zeros(w)"), (None, "goto loop {result: result + leading_zeros(w)}")]}),
+]
+
+
 def run(chk, F, tier):
     chk.trusted += ["Devroye (1986, X.6) rejection algorithm for the zeta distribution; Crease's rejection sampler for the Zipf law, as cited in the crate's documentation",
                     "sympy's simplification (`equal`) and 40-digit evaluation at rational points (`different`)",
                     "the reference decision lists in rules_c02.py were transcribed from those sources"]
-    rules_c01.run_specs(chk, F, SPECS, 10)
+    rules_c01.run_specs(chk, F, SPECS, 14)
     chk.notes.append("not examined (loop-carried state / nested loops): Binomial BINV and BTPE, Poisson Knuth and Ahrens-Dieter, Geometric, StandardGeometric, Hypergeometric HIN and H2PE")
